@@ -7,8 +7,13 @@ import (
 	"fmt"
 	"os"
 	"path/filepath"
+	"reflect"
 	"sort"
 	"strings"
+	"sync"
+	"sync/atomic"
+	"time"
+	"unsafe"
 
 	"lunar/engine/actions"
 	lunar_messages "lunar/engine/messages"
@@ -16,11 +21,13 @@ import (
 	"lunar/engine/routing"
 	"lunar/engine/streams"
 	streamconfig "lunar/engine/streams/config"
+	internaltypes "lunar/engine/streams/internal-types"
 	lunar_context "lunar/engine/streams/lunar-context"
 	publictypes "lunar/engine/streams/public-types"
 	streamtypes "lunar/engine/streams/types"
 	"lunar/engine/streams/validation"
 	"lunar/engine/utils/environment"
+	"lunar/toolkit-core/clock"
 	context_manager "lunar/toolkit-core/context-manager"
 
 	"github.com/negasus/haproxy-spoe-go/message"
@@ -345,6 +352,28 @@ flow:
     - from: {stream: {name: globalStream, at: start}}
       to: {processor: {name: R}}
     - from: {processor: {name: R}}
+      to: {stream: {name: globalStream, at: end}}
+  response:
+    - from: {stream: {name: globalStream, at: start}}
+      to: {stream: {name: globalStream, at: end}}
+`,
+	"queue": `processors:
+  Q:
+    processor: Queue
+    parameters:
+      - key: quota_id
+        value: qq
+      - key: ttl_seconds
+        value: 0
+      - key: queue_size
+        value: 64
+flow:
+  request:
+    - from: {stream: {name: globalStream, at: start}}
+      to: {processor: {name: Q}}
+    - from: {processor: {name: Q, condition: allowed}}
+      to: {stream: {name: globalStream, at: end}}
+    - from: {processor: {name: Q, condition: blocked}}
       to: {stream: {name: globalStream, at: end}}
   response:
     - from: {stream: {name: globalStream, at: start}}
@@ -794,4 +823,153 @@ func (e *engine) runRaw(dir, method, url, path, query, hdr, body string, status 
 		}
 	}
 	e.handler(&request.Request{Messages: &message.Messages{{Name: name, KV: kvs}}})
+}
+
+// processorQueues: the in-memory queues of the REAL Queue processors of the user flows selected for the test URL
+// (private fields Stream.filterTree and queueProcessor.queue, read by reflection).
+func processorQueues(s *streams.Stream) []publictypes.SharedQueueI {
+	var out []publictypes.SharedQueueI
+	defer func() { _ = recover() }()
+	f := reflect.ValueOf(s).Elem().FieldByName("filterTree")
+	ft := reflect.NewAt(f.Type(), unsafe.Pointer(f.UnsafeAddr())).Elem().Interface().(internaltypes.FilterTreeI)
+	res, found := ft.GetFlow(streamtypes.NewRequestAPIStream(lunar_messages.OnRequest{
+		ID: "probe", SequenceID: "probe", Method: "GET", Scheme: "https", URL: txnURL, Path: "/x",
+		Headers: map[string]string{"host": txnHost},
+	}, lunar_context.NewMemoryState[[]byte]()))
+	if !found {
+		return nil
+	}
+	flows, _ := res.GetUserFlow()
+	for _, fl := range flows {
+		root, _ := fl.GetRequestDirection().GetRoot()
+		if root == nil || reflect.ValueOf(root).IsNil() || root.GetNode() == nil {
+			continue
+		}
+		pv := reflect.ValueOf(root.GetNode().GetProcessor())
+		if pv.Kind() != reflect.Ptr || pv.IsNil() || pv.Elem().Kind() != reflect.Struct {
+			continue
+		}
+		qf := pv.Elem().FieldByName("queue")
+		if !qf.IsValid() || !qf.CanAddr() {
+			continue
+		}
+		if q, ok := reflect.NewAt(qf.Type(), unsafe.Pointer(qf.UnsafeAddr())).Elem().Interface().(publictypes.SharedQueueI); ok && q != nil {
+			out = append(out, q)
+		}
+	}
+	return out
+}
+
+// stress runs transactions on `workers` goroutines for `ms` milliseconds WHILE the engine's other goroutines run:
+// a metrics reader scraping the stream's metric getters the way MetricManager's observable callbacks do, and a
+// driver of the (mock) clock that makes the background loops of the processors (Queue: every 100 ms) spin.  A data
+// race the Go runtime detects ("concurrent map iteration and map write") or a panic in a background goroutine kills
+// the worker process: the supervisor records `crash:<kind>`.
+func (e *engine) stress(kind string, ms, workers int) {
+	stop := make(chan struct{})
+	var wg sync.WaitGroup
+	var seq atomic.Int64
+	send := func(w int) {
+		n := seq.Add(1)
+		kvs := kv.NewKV()
+		id := fmt.Sprintf("s-%d-%d", w, n)
+		kvs.Add("id", id)
+		kvs.Add("sequence_id", id)
+		kvs.Add("method", "GET")
+		kvs.Add("scheme", "https")
+		kvs.Add("url", txnURL)
+		kvs.Add("path", "/x")
+		kvs.Add("query", "")
+		kvs.Add("headers", "host: verif.test\r\n")
+		kvs.Add("body", []byte(""))
+		e.handler(&request.Request{Messages: &message.Messages{{Name: lunar_messages.LunarRequest, KV: kvs}}})
+		if n%3 == 0 {
+			kvr := kv.NewKV()
+			kvr.Add("id", id)
+			kvr.Add("sequence_id", id)
+			kvr.Add("method", "GET")
+			kvr.Add("url", txnURL)
+			kvr.Add("status", int64(200))
+			kvr.Add("headers", "content-type: text/plain\r\n")
+			kvr.Add("body", []byte(""))
+			e.handler(&request.Request{Messages: &message.Messages{{Name: lunar_messages.LunarResponse, KV: kvr}}})
+		}
+	}
+	for w := 0; w < workers; w++ {
+		wg.Add(1)
+		go func(w int) {
+			defer wg.Done()
+			for {
+				select {
+				case <-stop:
+					return
+				default:
+				}
+				send(w)
+			}
+		}(w)
+	}
+	var bg sync.WaitGroup
+	bgStop := make(chan struct{})
+	if kind == "metrics" || kind == "all" {
+		bg.Add(1)
+		go func() {
+			defer bg.Done()
+			for {
+				select {
+				case <-bgStop:
+					return
+				default:
+				}
+				_ = e.live.GetFlowInvocations()
+				_ = e.live.GetActiveFlows()
+				_ = e.live.GetRequestsThroughFlows()
+				_ = e.live.GetAvgFlowExecutionTime()
+				_ = e.live.GetAvgProcessorExecutionTime()
+			}
+		}()
+	}
+	if kind == "queue" || kind == "all" {
+		// what many simultaneous transactions do to a Queue processor's queue: enter it (Enqueue) and leave it again
+		// (removeRequest -> Remove), at a rate the few transactions of this process cannot reach, on the processor's
+		// OWN queue while its own background loop polls it
+		for _, q := range processorQueues(e.live) {
+			for h := 0; h < 4; h++ {
+				bg.Add(1)
+				go func(q publictypes.SharedQueueI, h int) {
+					defer bg.Done()
+					for i := 0; ; i++ {
+						select {
+						case <-bgStop:
+							return
+						default:
+						}
+						id := fmt.Sprintf("hammer-%d-%d", h, i)
+						_ = q.Enqueue(id, float64(h))
+						q.Remove(id)
+					}
+				}(q, h)
+			}
+		}
+		if mc, ok := context_manager.Get().GetClock().(*clock.MockClock); ok {
+			bg.Add(1)
+			go func() {
+				defer bg.Done()
+				for {
+					select {
+					case <-bgStop:
+						return
+					default:
+					}
+					mc.AdvanceTime(100 * time.Millisecond)
+				}
+			}()
+		}
+	}
+	time.Sleep(time.Duration(ms) * time.Millisecond)
+	close(stop)
+	wg.Wait() // waiters of a Queue leave through their TTL: the clock driver keeps running until they are out
+	close(bgStop)
+	bg.Wait()
+	_ = seq.Load()
 }
